@@ -49,6 +49,9 @@ pub struct Config {
     /// R-rangeiter: a parenthesised integer range used as an iterator, `(A..B).m(..)` -> `vx_range(A, B).m(..)` (prelude: the model
     /// iterator over A, A+1, .., B-1; std's adaptor methods on `Range` cannot be given a contract in place)
     pub rrangeiter: bool,
+    /// R-entry: `M.entry(K).or_insert(V)` -> `M.vx_entry_or_insert(K, V)` (prelude: std's documented meaning -- the value stored
+    /// for K, V being inserted first when K is absent; the intermediate `Entry` holds a `&mut` to the map inside a struct)
+    pub rentry: bool,
     pub state_methods: Vec<String>,
     pub state_calls: Vec<String>,
     pub state_arg: String,
@@ -84,6 +87,7 @@ impl Config {
             rfor: v["rfor"].as_bool().unwrap_or(false),
             ralloc: v["ralloc"].as_bool().unwrap_or(false),
             rrangeiter: v["rrangeiter"].as_bool().unwrap_or(false),
+            rentry: v["rentry"].as_bool().unwrap_or(false),
             mirror: v["mirror"]
                 .as_object()
                 .map(|m| m.iter().map(|(k, t)| (k.clone(), t.as_str().unwrap_or("").to_string())).collect())
@@ -148,6 +152,10 @@ pub struct Rewriter<'a> {
     loop_depth_in_tail: Option<usize>,
     /// kinds the unit file forces for a name wherever it is (re)bound
     pub forced: HashMap<String, Kind>,
+    /// R-hoist: nesting depth of macro invocations, start offsets of the enclosing statements, fresh-name counter
+    macro_depth: usize,
+    stmt_starts: Vec<usize>,
+    hoist_n: usize,
 }
 
 fn binop_trait(op: &BinOp) -> Option<(&'static str, &'static str, bool)> {
@@ -216,6 +224,9 @@ impl<'a> Rewriter<'a> {
             edits: Edits::default(),
             applied: vec![],
             unsupported: vec![],
+            macro_depth: 0,
+            stmt_starts: vec![],
+            hoist_n: 0,
             scopes: vec![HashMap::new()],
             self_ref: false,
             impl_self_ref: false,
@@ -533,18 +544,23 @@ impl<'a, 'ast> Visit<'ast> for Rewriter<'a> {
                 return;
             }
         }
+        let st_start = self.r(st.span()).0;
+        self.stmt_starts.push(st_start);
         visit::visit_stmt(self, st);
+        self.stmt_starts.pop();
     }
 
     fn visit_macro(&mut self, m: &'ast Macro) {
         // expression macros (forward_err!, xraise!, vec!...): the rules apply inside their arguments too
         let args = crate::macro_args(m);
         let leaked: &'static [Expr] = Box::leak(args.into_boxed_slice());
+        self.macro_depth += 1;
         for e in leaked {
             if !matches!(e, Expr::Verbatim(_)) {
                 self.visit_expr(e);
             }
         }
+        self.macro_depth -= 1;
     }
 
     fn visit_stmt_macro(&mut self, m: &'ast StmtMacro) {
@@ -660,20 +676,44 @@ impl<'a, 'ast> Visit<'ast> for Rewriter<'a> {
                 return;
             }
         }
-        if !c.inputs.is_empty() && matches!(c.output, ReturnType::Default) {
+        if matches!(c.output, ReturnType::Default) {
             let whole = self.r(c.span());
             let src = norm(self.sf.slice(whole));
             if let Some((_, hdr)) = self.cfg.closure_sig.iter().find(|(k, _)| *k == src) {
                 let br = self.r(c.body.span());
-                self.edits.replace(
-                    whole,
+                if self.macro_depth > 0 {
+                    // R-hoist: inside a macro invocation the annotated closure syntax is not an expression rustc's macro
+                    // parser accepts; bind the closure to a fresh name immediately before the enclosing statement
+                    if let Some(&at) = self.stmt_starts.last() {
+                        let name = format!("__vx_c{}", self.hoist_n);
+                        self.hoist_n += 1;
+                        let body = self.sf.slice(br).to_string();
+                        let text = if hdr.contains(" ensures ") {
+                            format!("let {} = {} {{ {} }};\n", name, hdr, body)
+                        } else {
+                            format!("let {} = {} ensures o == ({}) {{ {} }};\n", name, hdr, body, body)
+                        };
+                        self.edits.insert(at, text, "R-hoist");
+                        self.edits.replace(whole, vec![Piece::Lit(name)], "R-hoist");
+                        self.note("R-hoist", c.span());
+                        return;
+                    }
+                }
+                // a header that states its own postcondition (a body that calls a function value cannot be repeated in one)
+                let pieces = if hdr.contains(" ensures ") {
+                    vec![Piece::Lit(format!("{} {{ ", hdr)), Piece::Src(br.0, br.1), Piece::Lit(" }".into())]
+                } else {
                     vec![
                         Piece::Lit(format!("{} ensures o == (", hdr)),
                         Piece::Src(br.0, br.1),
                         Piece::Lit(") { ".into()),
                         Piece::Src(br.0, br.1),
                         Piece::Lit(" }".into()),
-                    ],
+                    ]
+                };
+                self.edits.replace(
+                    whole,
+                    pieces,
                     "R-closurepost",
                 );
                 self.note("R-closurepost", c.span());
@@ -958,6 +998,33 @@ impl<'a, 'ast> Visit<'ast> for Rewriter<'a> {
 
     fn visit_expr_method_call(&mut self, m: &'ast ExprMethodCall) {
         let name = m.method.to_string();
+        if self.cfg.rentry && name == "or_insert" && m.args.len() == 1 {
+            if let Expr::MethodCall(e) = &*m.receiver {
+                if e.method == "entry" && e.args.len() == 1 {
+                    self.visit_expr(&e.receiver);
+                    self.visit_expr(&e.args[0]);
+                    self.visit_expr(&m.args[0]);
+                    let rr = self.r(e.receiver.span());
+                    let kr = self.r(e.args[0].span());
+                    let vr = self.r(m.args[0].span());
+                    let whole = self.r(m.span());
+                    self.edits.replace(
+                        whole,
+                        vec![
+                            Piece::Src(rr.0, rr.1),
+                            Piece::Lit(".vx_entry_or_insert(".into()),
+                            Piece::Src(kr.0, kr.1),
+                            Piece::Lit(", ".into()),
+                            Piece::Src(vr.0, vr.1),
+                            Piece::Lit(")".into()),
+                        ],
+                        "R-entry",
+                    );
+                    self.note("R-entry", m.span());
+                    return;
+                }
+            }
+        }
         if self.cfg.rrangeiter {
             if let Expr::Paren(p) = &*m.receiver {
                 if let Expr::Range(rg) = &*p.expr {
